@@ -93,6 +93,7 @@ legacy_strategy = st.fixed_dictionaries({
     "date": gen.date8, "respin": gen.respin,
     "suffix": st.sampled_from(sorted(SUFFIX_TABLE)), "with_respin": st.booleans(),
     "stored_type": st.sampled_from(gen.COMPOSE_TYPES + ["", "whatever"]),
+    "peek": st.booleans(),
 })
 
 
@@ -118,6 +119,9 @@ def legacy_case(case):
     from productmd.composeinfo import ComposeInfo
     cid, doc = legacy_doc(case)
     ci = ComposeInfo()
+    if case.get("peek"):
+        # looking at a fresh object's (current) version before loading into it is harmless
+        check(ci.header.version_tuple == (1, 2), "fresh-header-version", "%r" % (ci.header.version_tuple,))
     must("load-legacy", ci.loads, json.dumps(doc))
     want = (cid, case["date"], SUFFIX_TABLE[case["suffix"]], case["respin"] if case["with_respin"] else 0)
     got = (ci.compose.id, ci.compose.date, ci.compose.type, ci.compose.respin)
